@@ -325,6 +325,11 @@ def query_case(case):
     elif mut == 'extra_param':
         q['foo'] = 'bar'
     cert = env.cert_b64({'own': 'kA', 'other': 'kB', 'other_expired': 'kBexp'}[scn['cert']])
+    if scn.get('prior') == 'otherCertFirst':
+        try:
+            verify_redirect_signature(q, verifier, cert=env.cert_b64('kC'))      # same dictionary, another certificate first
+        except Exception:
+            pass
     try:
         res = verify_redirect_signature(q, verifier, cert=cert)
         obs = 'true' if res else ('none' if res is None else 'false')
